@@ -433,13 +433,15 @@ PROPS["C01"]["level_note"] += "; smooth and leaky activations composed with the 
 
 # network-level term mode (SymNet.tla): smooth / leaky activations through whole networks incl. feedback blocks
 NET_TERMS = {"module": "MC_NetTerms",
-             "consts": {"quick": {"NetSel": "{1, 2, 3, 4, 5, 6, 7, 8}", "ActSel": "{1, 2}", "LoopSel": "{1, 2}"},
-                        "thorough": {"NetSel": "{1, 2, 3, 4, 5, 6, 7, 8}", "ActSel": "{1, 2, 3}", "LoopSel": "{1, 2, 3}"}},
+             "consts": {"quick": {"NetSel": "{1, 2, 3, 4, 5, 6, 7, 8, 9, 10, 11, 12}", "ActSel": "{1, 2}", "LoopSel": "{1, 2}"},
+                        "thorough": {"NetSel": "{1, 2, 3, 4, 5, 6, 7, 8, 9, 10, 11, 12}", "ActSel": "{1, 2, 3}", "LoopSel": "{1, 2, 3}"}},
              "workers": 8, "stack": "1g", "coverage": False,
              "require": {"netterm_rounds_checked": 40, "netterm_feedback_rounds_checked": 20}}
 PROPS["C01"]["mc"].append(NET_TERMS)
 PROPS["C02"]["mc"].append(NET_TERMS)
 PROPS["C11"]["mc"].append(NET_TERMS)
+PROPS["C16"]["mc"].append(NET_TERMS)
+PROPS["C16"]["level_note"] += "; additive skips (shared source, chain, regrouping between shapes, max-pool as source) with smooth activations in term mode (MC_NetTerms 10-12: forward and chain-rule gradient programs of SymNet.tla)"
 PROPS["C01"]["level_note"] += "; whole networks with smooth / leaky activations (perceptrons, spatial stacks flattened into dense layers, feedback blocks of dense and spatial layers unrolled up to 3 times) are checked in term mode: forward program and chain-rule gradient program of SymNet.tla, each local derivative by the symbolic differentiator, the program itself cross-checked against central differences in double precision"
 PROPS["C11"]["level_note"] += "; blocks without skips with tanh / sigmoid / leaky layers in term mode (MC_NetTerms)"
 
